@@ -3,7 +3,8 @@ import Sigc.VisitLemmas
   C09 — auto-disconnection reaches through every adaptor and nesting.
 
   All statements quantify over *every* functor expression `e : FExpr` (any nesting depth, any number of
-  bound values at any position — plain values, `std::ref`/`std::cref`, by-value objects and *functor
+  bound values at any position — plain values, `std::ref`/`std::cref`, by-value objects, objects bound with
+  an explicitly spelled reference type (`bind_return<X&>(f, x)`, `bind<I, F, X&>(f, x)`) and *functor
   expressions bound by value* (`bind(&run_then, continuation_slot)`, `bind(&apply, mem_fun(obj, …))`,
   `bind_return(f, some_slot)`), any assignment of trackables to leaves, slots stored inside the
   expression) and are proved by structural induction (mutual: expression ↔ bound argument ↔ bound tuple)
@@ -73,6 +74,8 @@ theorem bound_perm_refs (b : BArg) : (E (visitBound codeTable b)).Perm b.refs :=
   | .ref o => simp [visitBound, E_bound_row, E_visitLimRef, BArg.refs]
   | .cref o => simp [visitBound, E_bound_row, E_visitLimRef, BArg.refs]
   | .copy o => simp [visitBound, E_bound_row, E_visitPrimary_own, BArg.refs]
+  | .xref o => simp [visitBound, E_bound_row, E_visitPrimary_ext, BArg.refs]
+  | .xcref o => simp [visitBound, E_bound_row, E_visitPrimary_ext, BArg.refs]
   | .fn e =>
     have ih := scan_perm_referenced e
     simpa [visitBound, E_bound_row, BArg.refs] using ih
@@ -108,6 +111,20 @@ example : slotFree (.compose2 .leaf (.bind (some 1) (.memFun ⟨1, .vbase⟩) [.
     (.bindReturn (.trackObj .leaf [⟨3, .direct⟩, ⟨3, .direct⟩]) (.copy ⟨2, .direct⟩))) = true
     ∧ visited (.compose2 .leaf (.bind (some 1) (.memFun ⟨1, .vbase⟩) [.val, .ref ⟨2, .direct⟩, .cref ⟨1, .vbase⟩])
     (.bindReturn (.trackObj .leaf [⟨3, .direct⟩, ⟨3, .direct⟩]) (.copy ⟨2, .direct⟩))) = [1, 2, 1, 3, 3] := by
+  decide
+
+/-- bound types spelled as explicit references: `bind_return<X&>(f, t1)`, `bind<0, F, int, X&, const Y&>(f, 5, t2, t1)`
+    (first / middle / last of the tuple), through a virtual base, next to `std::ref` and by-value copies of the
+    same objects; an untracked object bound as `U&` is not registered -/
+example : slotFree (.bindReturn (.bind (some 0) (.memFun ⟨3, .direct⟩) [.val, .xref ⟨2, .vbase⟩, .xcref ⟨1, .direct⟩])
+      (.xref ⟨1, .direct⟩)) = true
+    ∧ visited (.bindReturn (.bind (some 0) (.memFun ⟨3, .direct⟩) [.val, .xref ⟨2, .vbase⟩, .xcref ⟨1, .direct⟩])
+      (.xref ⟨1, .direct⟩)) = [1, 3, 2, 1]
+    ∧ visited (.bind none .leaf [.xref ⟨1, .vbase⟩, .copy ⟨1, .vbase⟩, .ref ⟨1, .vbase⟩, .xcref ⟨4, .untracked⟩]) = [1, 1]
+    ∧ (repOf codeTable (.bind none .leaf [.xref ⟨1, .vbase⟩, .copy ⟨1, .vbase⟩, .ref ⟨1, .vbase⟩])).regs
+        = [.ext 1, .own 1, .ext 1]
+    ∧ ties (.hide none (.hideReturn (.bindReturn .leaf (.xref ⟨1, .direct⟩)))) 1 = true
+    ∧ visitedAll (.bind none .leaf [.fn (.slot (.bindReturn .leaf (.xcref ⟨2, .vbase⟩)))]) = [2] := by
   decide
 
 /-- functors bound by value: `bind<0>(f, 5, mem_fun(t1), hide(mem_fun(t2)))`, `bind_return(f, mem_fun(t3))` —
@@ -251,6 +268,115 @@ theorem bound_leaf_witness_slot :
     ∧ (repOf boundLeafTable (.bindReturn .leaf (.fn (.slot (.memFun ⟨1, .direct⟩))))).invalidatedBy 1 = false := by
   decide
 
+/-! ### "an object that arrives with its own type is a copy"
+
+  `byTypeDroppedTable` is `codeTable` with one more overload in the action (`slot_do_bind` / `slot_do_unbind`):
+  `template<typename T> void operator()(const T&) const noexcept {}`.  Every visitor row is unchanged. -/
+
+/-- **witness**: with that overload set the general theorem is false — `bind_return<X&>(f, t1)` keeps a reference
+    to `t1` (nothing is copied) and the slot is not registered in it -/
+theorem by_type_dropped_witness :
+    ¬ (visitedAllWith byTypeDroppedTable (.bindReturn .leaf (.xref ⟨1, .direct⟩))).Perm
+        (referenced (.bindReturn .leaf (.xref ⟨1, .direct⟩))) := by
+  decide
+
+/-- … destroying `t1` would not invalidate that slot; the same for `bind<I, F, X&>`, for `const X&`, through a
+    virtual base, at any position of the tuple, below other adaptors and inside a slot bound by value -/
+theorem by_type_dropped_witness_ties :
+    (repOf byTypeDroppedTable (.bindReturn .leaf (.xref ⟨1, .direct⟩))).invalidatedBy 1 = false
+    ∧ (repOf byTypeDroppedTable (.bind (some 0) .leaf [.val, .xcref ⟨1, .vbase⟩])).invalidatedBy 1 = false
+    ∧ (repOf byTypeDroppedTable (.hide none (.retypeReturn (.bind none (.memFun ⟨2, .direct⟩) [.xref ⟨1, .direct⟩])))).regs
+        = [.ext 2]
+    ∧ (repOf byTypeDroppedTable (.bind none .leaf [.fn (.slot (.bindReturn .leaf (.xref ⟨1, .direct⟩)))])).invalidatedBy 1
+        = false := by
+  decide
+
+/-- … while everything that goes through a `limit_reference` (`std::ref`, `mem_fun`, `track_object`) is still
+    registered, and the private copies no longer are -/
+example : (repOf byTypeDroppedTable (.bind none (.trackObj (.memFun ⟨1, .vbase⟩) [⟨3, .direct⟩])
+      [.ref ⟨2, .direct⟩, .copy ⟨2, .direct⟩, .cref ⟨1, .vbase⟩])).regs = [.ext 1, .ext 3, .ext 2, .ext 1]
+    ∧ (repOf codeTable (.bind none (.trackObj (.memFun ⟨1, .vbase⟩) [⟨3, .direct⟩])
+      [.ref ⟨2, .direct⟩, .copy ⟨2, .direct⟩, .cref ⟨1, .vbase⟩])).regs = [.ext 1, .ext 3, .ext 2, .own 2, .ext 1] := by
+  decide
+
+mutual
+/-- why the extra overload goes unnoticed: on every expression in which objects are referred to only through
+    `limit_reference` (`mem_fun`, `make_slot`, `signal_connect`, `std::ref`/`std::cref`, `track_obj`; plain values and
+    functors bound by value at any position and depth, slots stored inside) the two tables produce the same rep tree -/
+theorem byType_same_when_limited (e : FExpr) (h : limitedOnly e = true) :
+    scan byTypeDroppedTable e = scan codeTable e := by
+  match e with
+  | .leaf => rfl
+  | .memFun o => simp [scan, row, byTypeDroppedTable, codeTable, visitLimRef_byType]
+  | .makeSlot o => simp [scan, row, byTypeDroppedTable, codeTable, visitLimRef_byType]
+  | .signalConnect o => simp [scan, row, byTypeDroppedTable, codeTable, visitLimRef_byType]
+  | .bind pos f bs =>
+    simp [limitedOnly] at h
+    have ih := byType_same_when_limited f h.1
+    have ihb := byType_tuple bs h.2
+    cases pos <;> simp [scan, row, byTypeDroppedTable, codeTable, stored, ih, ihb]
+  | .bindReturn f b =>
+    simp [limitedOnly] at h
+    have ih := byType_same_when_limited f h.1
+    have ihb := byType_bound b h.2
+    simp [scan, row, byTypeDroppedTable, codeTable, stored, ih, ihb]
+  | .hide pos f =>
+    have ih := byType_same_when_limited f (by simpa [limitedOnly] using h)
+    simp [scan, row, byTypeDroppedTable, codeTable, stored, ih]
+  | .hideReturn f =>
+    have ih := byType_same_when_limited f (by simpa [limitedOnly] using h)
+    simp [scan, row, byTypeDroppedTable, codeTable, stored, ih]
+  | .retype f =>
+    have ih := byType_same_when_limited f (by simpa [limitedOnly] using h)
+    simp [scan, row, byTypeDroppedTable, codeTable, stored, ih]
+  | .retypeReturn f =>
+    have ih := byType_same_when_limited f (by simpa [limitedOnly] using h)
+    simp [scan, row, byTypeDroppedTable, codeTable, stored, ih]
+  | .compose1 s g =>
+    simp [limitedOnly] at h
+    simp [scan, row, byTypeDroppedTable, codeTable, stored, byType_same_when_limited s h.1,
+      byType_same_when_limited g h.2]
+  | .compose2 s g1 g2 =>
+    simp [limitedOnly] at h
+    simp [scan, row, byTypeDroppedTable, codeTable, stored, byType_same_when_limited s h.1.1,
+      byType_same_when_limited g1 h.1.2, byType_same_when_limited g2 h.2]
+  | .exceptionCatch f c =>
+    simp [limitedOnly] at h
+    simp [scan, row, byTypeDroppedTable, codeTable, stored, byType_same_when_limited f h.1,
+      byType_same_when_limited c h.2]
+  | .trackObj f ts =>
+    have ih := byType_same_when_limited f (by simpa [limitedOnly] using h)
+    simp [scan, row, byTypeDroppedTable, codeTable, stored, ih, visitObjs_byType]
+  | .slot f =>
+    have ih := byType_same_when_limited f (by simpa [limitedOnly] using h)
+    simp [scan, row, byTypeDroppedTable, codeTable, stored, ih]
+
+theorem byType_bound (b : BArg) (h : b.limited = true) :
+    visitBound byTypeDroppedTable b = visitBound codeTable b := by
+  match b with
+  | .val => rfl
+  | .ref o => simp [visitBound, row, byTypeDroppedTable, codeTable, visitLimRef_byType]
+  | .cref o => simp [visitBound, row, byTypeDroppedTable, codeTable, visitLimRef_byType]
+  | .copy o => simp [BArg.limited] at h
+  | .xref o => simp [BArg.limited] at h
+  | .xcref o => simp [BArg.limited] at h
+  | .fn e =>
+    have ih := byType_same_when_limited e (by simpa [BArg.limited] using h)
+    simp [visitBound, row, byTypeDroppedTable, codeTable, ih]
+
+theorem byType_tuple (bs : List BArg) (h : limitedArgs bs = true) :
+    visitTuple byTypeDroppedTable bs = visitTuple codeTable bs := by
+  match bs with
+  | [] => simp [visitTuple]
+  | b :: bs =>
+    simp [limitedArgs] at h
+    simp [visitTuple, byType_bound b h.1, byType_tuple bs h.2]
+end
+
+example : limitedOnly (.bind (some 1) (.slot (.memFun ⟨1, .vbase⟩)) [.val, .fn (.trackObj .leaf [⟨2, .direct⟩]), .cref ⟨1, .vbase⟩]) = true
+    ∧ (repOf byTypeDroppedTable (.bind (some 1) (.slot (.memFun ⟨1, .vbase⟩))
+        [.val, .fn (.trackObj .leaf [⟨2, .direct⟩]), .cref ⟨1, .vbase⟩])).allRegs = [.ext 1, .ext 2, .ext 1] := by decide
+
 mutual
 /-- why the changed row goes unnoticed: on every expression without a functor-valued bound argument (plain
     values, `std::ref`/`std::cref`, by-value objects at any position and depth) the two tables produce the same
@@ -306,10 +432,12 @@ theorem boundLeaf_same_without_bound_functor (e : FExpr) (h : plainBound e = tru
 theorem boundLeaf_bound (b : BArg) (h : b.plain = true) :
     visitBound boundLeafTable b = visitBound codeTable b := by
   match b with
-  | .val => simp [visitBound, row, boundLeafTable, codeTable, visitPrimary, Rep.seq, Rep.append_done]
+  | .val => simp [visitBound, row, boundLeafTable, codeTable, visitPrimary, Rep.seq, Rep.append_done, act_boundLeafTable]
   | .ref o => rfl
   | .cref o => rfl
-  | .copy o => simp [visitBound, row, boundLeafTable, codeTable, visitPrimary, Rep.seq, Rep.append_done]
+  | .copy o => simp [visitBound, row, boundLeafTable, codeTable, visitPrimary, Rep.seq, Rep.append_done, act_boundLeafTable]
+  | .xref o => simp [visitBound, row, boundLeafTable, codeTable, visitPrimary, Rep.seq, Rep.append_done, act_boundLeafTable]
+  | .xcref o => simp [visitBound, row, boundLeafTable, codeTable, visitPrimary, Rep.seq, Rep.append_done, act_boundLeafTable]
   | .fn e => simp [BArg.plain] at h
 
 theorem boundLeaf_tuple (bs : List BArg) (h : plainArgs bs = true) :
